@@ -465,4 +465,17 @@ Proof.
 Qed.
 Print Assumptions C16_mem_version_rule_is_source.
 
+(** MemoryKVVStore::put_batch (whole body, translated: the local `staged` map, the loop over the entries with
+    `staged.get(&key).or_else(|| data.get(&key))`, `continue`, the early `return Err(..)`, and the second loop that
+    inserts the staged entries in key order) is the model's [m_batch]: on every sorted store (a BTreeMap) and every
+    list of entries it accepts exactly when [batch_go] - every entry judged against the store as left by the
+    entries before it - accepts, and then leaves exactly the model's store; otherwise Err(Error::VersionMismatch)
+    with nothing written. *)
+Theorem C16_mem_batch_is_source :
+  forall (prof : profile) (s : store) (l : list kvv),
+    ksorted s ->
+    KvvGen.gen_MemoryKVVStore_put_batch prof (KvvGen.mk_MemoryKVVStore s) l = KvvGenProofs.of_mres (m_batch s l).
+Proof. exact KvvGenProofs.gen_put_batch_is_model. Qed.
+Print Assumptions C16_mem_batch_is_source.
+
 Check C16_disk_refines_mem.
